@@ -584,6 +584,10 @@ def _process_internal_events_without_default_matchers(
                     # Create instance as a child of the activated reference flow
                     event.arguments["source_flow_instance_uid"] = started_instance.uid
 
+                # The instance uid is optional in a `send StartFlow(...)` statement
+                if "flow_instance_uid" not in event.arguments:
+                    event.arguments["flow_instance_uid"] = new_readable_uuid(flow_id)
+
                 add_new_flow_instance(
                     state,
                     create_flow_instance(
